@@ -1,7 +1,10 @@
 """Write seeded/<id>/meta.json from the patch, the confirmation logs and the sweep results."""
 import json, os, re, glob
 ROOT = '/verif/seeded'
-INITIAL_MISS = {'C03-8': 'no contract stated the frame "API methods of a transaction body only queue" (a table mutation inside write_entity was an unknown call the opaque-callee rule accepted) and no bounded history deleted a context state through the entity interface before aborting',
+INITIAL_MISS = {'C04-9': 'the commit-and-notify critical section was proved under C02 only and did not treat the rt_updates observable as a publication; C04 (report order = commit order) did not re-check it',
+                'C05-9': 'time zones of DateOfBirth were sampled (whole hours, +-45 min), not enumerated; offsets between -00:59 and -00:01 were never written',
+                'C10-9': 'that the stamped new_mdib_version is the version the commit creates was trusted from C02 (transaction created inside the locks, commit sets exactly new_mdib_version) and not re-checked by the C10 check',
+                'C03-8': 'no contract stated the frame "API methods of a transaction body only queue" (a table mutation inside write_entity was an unknown call the opaque-callee rule accepted) and no bounded history deleted a context state through the entity interface before aborting',
                 'C16-8': '_scope_string_matches was under a totality contract only (never raises); its result was not tied to from_scope_string + __contains__',
                 'C01-1': 'provider function _increment_parent_descriptor_version was not under contract and histories created one child per transaction',
                 'C02-2': 'StateTransactionBase.write_entity was not under contract',
